@@ -32,6 +32,7 @@ type Report struct {
 	PathsCompleted int                `json:"paths_completed"`
 	PathsPanicked  int                `json:"paths_panicked"`
 	Observations   []Inputs           `json:"observations,omitempty"`
+	FmtOpaque      int                `json:"fmt_opaque"`
 	stubSet        map[string]bool
 	violSeen       map[string]bool
 }
